@@ -50,9 +50,6 @@ func (c *Cluster) Put(obj runtime.Object) runtime.Object {
 
 // Remove deletes the object from the API state outright.
 func (c *Cluster) Remove(gvr schema.GroupVersionResource, ns, name string) bool {
-	if gvr == GVRPods {
-		return c.removePod(ns, name) == nil
-	}
 	return c.tracker.Delete(gvr, ns, name) == nil
 }
 
@@ -246,7 +243,7 @@ func (c *Cluster) RefreshPods() {
 		objs = append(objs, p)
 	}
 	c.podIdx().Replace(objs, "")
-	c.ghosts = nil // a relist: what came and went in between is never reported
+	c.journal = nil // a relist: what came and went in between is never reported
 }
 
 func (c *Cluster) RefreshSets() {
@@ -271,18 +268,50 @@ func (c *Cluster) RefreshPod(ns, name string, notify bool) (changed bool) {
 	key := ns + "/" + name
 	oldI, had, _ := c.podIdx().GetByKey(key)
 	cur := c.Pod(ns, name)
-	ghost := c.ghosts[key]
-	delete(c.ghosts, key)
+	evs := c.journal[key]
+	delete(c.journal, key)
+	if notify {
+		// replay every write the cache has not seen, as a watch would deliver them
+		for _, ev := range evs {
+			oI, h, _ := c.podIdx().GetByKey(key)
+			switch {
+			case ev.del:
+				if h {
+					c.podIdx().Delete(oI)
+					for _, hd := range c.r.podHandlers {
+						hd.OnDelete(oI)
+					}
+					changed = true
+				}
+			case !h:
+				c.podIdx().Add(ev.pod)
+				for _, hd := range c.r.podHandlers {
+					hd.OnAdd(ev.pod, false)
+				}
+				changed = true
+			default:
+				o := oI.(*corev1.Pod)
+				if o.ResourceVersion == ev.pod.ResourceVersion && o.UID == ev.pod.UID {
+					continue
+				}
+				c.podIdx().Update(ev.pod)
+				for _, hd := range c.r.podHandlers {
+					if o.UID != ev.pod.UID {
+						hd.OnDelete(o)
+						hd.OnAdd(ev.pod, false)
+					} else {
+						hd.OnUpdate(o, ev.pod)
+					}
+				}
+				changed = true
+			}
+		}
+		oldI, had, _ = c.podIdx().GetByKey(key)
+	}
+	// whatever difference is left (no journal, or a lossy one) is closed by comparing states
 	switch {
 	case cur == nil && !had:
-		if ghost == nil || !notify {
-			return false
-		}
-		// created and removed while the cache was behind: a watch delivers both events
-		for _, h := range c.r.podHandlers {
-			h.OnAdd(ghost, false)
-			h.OnDelete(ghost)
-		}
+		return changed
 	case cur == nil && had:
 		c.podIdx().Delete(oldI)
 		if notify {
@@ -300,7 +329,7 @@ func (c *Cluster) RefreshPod(ns, name string, notify bool) (changed bool) {
 	case cur != nil && had:
 		old := oldI.(*corev1.Pod)
 		if old.ResourceVersion == cur.ResourceVersion && old.UID == cur.UID {
-			return false
+			return changed
 		}
 		c.podIdx().Update(cur)
 		if notify {
@@ -456,7 +485,7 @@ func (c *Cluster) Kubelet(ns, name string, op KubeletOp) bool {
 		if p.DeletionTimestamp == nil {
 			return false
 		}
-		c.removePod(ns, name)
+		c.tracker.Delete(GVRPods, ns, name)
 		return true
 	}
 	c.savePod(p)
@@ -749,12 +778,7 @@ func (c *Cluster) RunLogged(f func()) (actions []*Action, crashed bool, panicked
 func (c *Cluster) Clone() *Cluster {
 	n := New()
 	n.clock, n.rv, n.uidN = c.clock, c.rv, c.uidN
-	for k, p := range c.ghosts {
-		if n.ghosts == nil {
-			n.ghosts = map[string]*corev1.Pod{}
-		}
-		n.ghosts[k] = p
-	}
+
 	n.ListPerm = c.ListPerm
 	for _, gk := range []struct {
 		gvr  schema.GroupVersionResource
@@ -766,6 +790,13 @@ func (c *Cluster) Clone() *Cluster {
 				panic(err)
 			}
 		}
+	}
+	n.journal = nil
+	for k, evs := range c.journal {
+		if n.journal == nil {
+			n.journal = map[string][]podEvent{}
+		}
+		n.journal[k] = append([]podEvent(nil), evs...)
 	}
 	for _, o := range c.podIdx().List() {
 		n.podIdx().Add(o.(*corev1.Pod).DeepCopy())
